@@ -437,6 +437,7 @@ REVERSALS = {
     "fix: refuse to load data sets with different numbers of rows": ["C12"],
     "fix: refuse references to objects of another logical file": ["C07"],
     "fix: refuse no-format frame data whose NO-FORMAT object": ["C07"],
+    "fix: keep a user-set ELEMENT-LIMIT": ["C05"],
 }
 
 
@@ -488,3 +489,31 @@ V("C05-t1", "C05", (EITEM, "            attr = getattr(self, attr_name, None)\n 
 V("C05-t2", "C05", (SUBT, "        if self._int_only or self.representation_code in ReprCodeConverter.int_codes:\n            return self._int_parser(value)\n\n        return self._float_parser(value)",
                     "        wants_int = self._int_only or self.representation_code in ReprCodeConverter.int_codes\n        parser = self._int_parser if wants_int else self._float_parser\n        return parser(value)"),
   "silent", "parser chosen by a conditional expression")
+
+
+# ---------------------------------------------------------------------------------------------- C13 (term rules)
+V("C13-b1", "C13", (FRAME, "assign_if_none(self.index_min, index_data.min())", "assign_if_none(self.index_min, index_data.max())"),
+  "R13.4", "min taken from max")
+V("C13-b2", "C13", (FRAME, "assign_if_none(self.index_max, index_data.shape[0])", "assign_if_none(self.index_max, index_data.size)"),
+  "R13.4", "row count replaced by element count")
+V("C13-b3", "C13", (FRAME, "            direction = True  # all non-negative", "            direction = False  # all non-negative"),
+  "R13.4", "direction sense inverted in the helper")
+V("C13-b4", "C13", (FRAME, "'INCREASING' if direction > 0 else 'DECREASING'", "'DECREASING' if direction > 0 else 'INCREASING'"),
+  "R13.4", "direction names swapped")
+V("C13-b5", "C13", (FRAME, "        index_data = data[index_channel.name][:]", "        index_data = data._data_source[index_channel.dataset_name][:]"),
+  "R13.1", "statistics over the raw source (row window ignored)")
+V("C13-b6", "C13", (FRAME, "            if getattr(attr, key) is None and value is not None:", "            if value is not None:"),
+  "R13.2", "helper overwrites user values")
+V("C13-b7", "C13", (FRAME, "        index_channel: ChannelItem = self.channels.value[0]", "        index_channel: ChannelItem = self.channels.value[-1]"),
+  ["R13.1", "R13.4"], "index channel is not the first channel")
+V("C13-b8", "C13", (FRAME, "            assign_if_none(self.spacing, 1)\n            assign_if_none(self.index_min, 1)", "            assign_if_none(self.spacing, 1)\n            assign_if_none(self.index_min, 0)"),
+  "R13.4", "row-number index starts at 0")
+V("C13-b9", "C13", (FRAME, "            else:\n                assign_if_none(self.spacing, spacing)", "            else:\n                assign_if_none(self.spacing, abs(spacing))"),
+  "R13.4", "sign of the spacing dropped")
+V("C13-b10", "C13", (FRAME, "        if (deviations < 0.001).all():", "        if np.allclose(diff_unique, median_diff):"), "R13.6",
+  "absolute tolerance introduced")
+V("C13-t1", "C13", (FRAME, "            assign_if_none(self.index_min, index_data.min())\n            assign_if_none(self.index_max, index_data.max())",
+                    "            lowest, highest = index_data.min(), index_data.max()\n            assign_if_none(self.index_max, highest)\n            assign_if_none(self.index_min, lowest)"),
+  "silent", "temporaries, order of independent statements")
+V("C13-t2", "C13", (FRAME, "            assign_if_none(self.index_max, index_data.shape[0])", "            assign_if_none(self.index_max, len(index_data))"),
+  "silent", "len() of the windowed data")
